@@ -50,6 +50,7 @@ class Run:
         self.ok = [dict() for _ in pools]            # evid -> times answered OK
         self.discarded = [dict() for _ in pools]     # serial -> times
         self.first_sent = [[] for _ in pools]        # poolserials in order of envelope starts
+        self.nbuffered = [0 for _ in pools]          # undelivered events per pool after the previous operation
         self.pid = 100
         for op in script:
             self.do(op)
@@ -140,6 +141,16 @@ class Run:
             buffered = [e for e in self.accepted[qi] if e not in gone and e not in held]
             if len(buffered) > bs:
                 self.viol.append(('buffer-bound-exceeded', 'pool %s (buffer_size %d) holds %d undelivered events %r after %r' % (name, bs, len(buffered), buffered, op)))
+            # overflow discards only what does not fit: an event is discarded only to make room for one that enters the
+            # buffer (a newly accepted event, or an event returned by a listener), and only when the buffer is full
+            entered = sum(1 for evid in range(ev0, w.next_ev) if evid in self.accepted[qi]) + \
+                sum(1 for o in outs if o.startswith('rej:%d.' % qi))
+            ndisc = sum(1 for o in outs if o.startswith('discard:%d:' % qi))
+            if ndisc > max(0, self.nbuffered[qi] + entered - bs):
+                self.viol.append(('discarded-more-than-overflow',
+                                  'pool %s (buffer_size %d) held %d undelivered events, %d entered the buffer during %r, but %d were discarded'
+                                  % (name, bs, self.nbuffered[qi], entered, op, ndisc)))
+            self.nbuffered[qi] = len(buffered)
         # reject isolation: whatever a listener writes (FAIL, garbage ...) leaves every other pool's queue and
         # poolserial counter alone (best-effort view of the pool objects, and in any case the accounting monitors)
         if t[0] == 'read':
